@@ -78,6 +78,8 @@ def setup_process():
                     kind = item[0]
                     if kind == "data":
                         if item[1] == mycid:
+                            if len(item) > 3:
+                                w.handed_to_stack.add((mycid,) + item[3])
                             try:
                                 self.connectionCallbacks.onRecvData(item[2])
                             except (SimCrash, SimShutdown):
@@ -323,6 +325,7 @@ class World(object):
         self.rng = stream(seed, "server-order")
         self.choices = RC.Choices(stream(seed, "codec"), self.knobs.get("codec_p", 0.0))
         self.server = Server(self)
+        self.handed_to_stack = set()   # (cid, tag, id, type) of stanzas a client's dispatcher passed into its stack
         self.server_wait = []
         self.clients = {}
         self.violations = []
@@ -440,7 +443,7 @@ class World(object):
                 c = self.by_jid(srv.conns[cid]["jid"])
                 self.note("deliver", c.name if c else "?", node.tag, node["id"], node["type"])
                 if c is not None and c.alive and c.cid == cid:
-                    c.inbox.push(("data", cid, RC.encode(node, self.choices)))
+                    c.inbox.push(("data", cid, RC.encode(node, self.choices), (node.tag, node["id"], node["type"])))
 
     def server_close(self, client):
         """Server-side close of the client's current connection."""
